@@ -153,7 +153,7 @@ class Gen:
                    and n != self.in_routine]
             if fns:
                 name = self.pick(fns)
-                return ('call', name, [self.arg_expr(scope, t, depth - 1) for _, t in self.routines[name]['params']])
+                return ('call', name, self.call_args(scope, self.routines[name], depth - 1))
         if roll < 0.2:
             fn = self.pick(['floor', 'ceil', 'trunc', 'round'])
             # floor/ceil/trunc/round jump at integers: only exact values may reach them
@@ -202,6 +202,19 @@ class Gen:
         if allow_unknown and (not cands or self.chance(0.07)):
             return 'Nowhere'
         return self.pick(cands) if cands else 'Nowhere'
+
+    def call_args(self, scope, rt, depth=1):
+        """Arguments for a call.  A later argument is now and then a caller's variable that has the name of one of the
+        callee's earlier parameters: arguments are values taken in the caller's scope, whatever the callee calls them."""
+        args = []
+        for idx, (_, typ) in enumerate(rt['params']):
+            same_name = [p for p, t in rt['params'][:idx] if t == typ and p in scope.vars and scope.vars[p].typ == typ
+                         and (typ == 'str' or scope.vars[p].cls == 'E')]
+            if same_name and self.chance(0.5):
+                args.append(('var', self.pick(same_name)))
+            else:
+                args.append(self.arg_expr(scope, typ, depth))
+        return args
 
     def arg_expr(self, scope, typ, depth=1):
         if typ == 'str':
@@ -731,7 +744,7 @@ class Gen:
             return self.stmt_print(scope)
         name = self.pick(cands)
         rt = self.routines[name]
-        args = [self.arg_expr(scope, t, 1) for _, t in rt['params']]
+        args = self.call_args(scope, rt, 1)
         if rt['ret'] == 'num' and self.chance(0.5):
             return {'op': 'print', 'nl': self.chance(0.5), 'e': ('call', name, args)}
         self.clobber_after_call(rt)
